@@ -36,7 +36,7 @@ def main():
         if not os.path.isfile(mp):
             continue
         meta = json.load(open(mp))
-        if "property" not in meta or meta.get("neutralised_by"):
+        if "property" not in meta or meta.get("neutralised_by") or meta.get("outside_reading"):
             continue
         sh("git -C %s checkout -q -- . && git -C %s clean -fdq" % (WT, WT))
         r = sh("git -C %s apply %s" % (WT, os.path.join(d, "patch.diff")))
